@@ -881,72 +881,114 @@ func ruleErrorPathRelease(c *Ctx, rule string) {
 			continue
 		}
 		c.Anchor(rule, fname(s.fn))
-		isConn := func(v ssa.Value) bool {
+		// path exploration from the function's entry with the helpers that handle the connection
+		// inlined: state = (acquired, closed, the addTCPConnection call that took it)
+		type pst struct {
+			active bool
+			closed bool
+			add    *ssa.Call
+		}
+		extractOf := func(call *ssa.Call, idx int) []ssa.Value {
+			var out []ssa.Value
+			if call.Referrers() == nil {
+				return nil
+			}
+			for _, r := range *call.Referrers() {
+				if ex, ok := r.(*ssa.Extract); ok && ex.Index == idx {
+					out = append(out, ex)
+				}
+			}
+			return out
+		}
+		isConnIn := func(v ssa.Value, env *pathEnv) bool {
+			v = env.resolve(w.resolveLoad(v))
+			if mi, ok := v.(*ssa.MakeInterface); ok {
+				v = env.resolve(mi.X)
+			}
 			pc, pi := callOf(v)
 			return pc == prod && pi == s.conn
 		}
-		isClose := func(in ssa.Instruction) bool {
+		interesting := func(in ssa.Instruction) bool {
 			ci, ok := in.(ssa.CallInstruction)
-			return ok && ci.Common().IsInvoke() && ci.Common().Method.Name() == "Close" && isConn(ci.Common().Value)
+			if !ok {
+				return false
+			}
+			if ci.Common().IsInvoke() && ci.Common().Method.Name() == "Close" {
+				return true
+			}
+			return ci.Common().StaticCallee() == add || in == ssa.Instruction(prod)
 		}
-		// path-sensitive exploration from the producer: state = (closed, owned, failed)
-		type pst struct{ closed, owned, failed bool }
-		pb := prod.Block()
-		edgeState := func(st pst, p, sblk *ssa.BasicBlock) pst {
-			for _, f := range edgeFacts(p, sblk) {
-				v, isNil, ok := nilFact(f)
-				if !ok {
-					continue
+		may := w.mayContain(interesting)
+		bad := ""
+		nChecked := 0
+		judge := func(st pst, env *pathEnv, where string) {
+			if !st.active {
+				return
+			}
+			nChecked++
+			failed := false
+			for _, ev := range extractOf(prod, s.err) {
+				if known, isNil := env.knownNil(ev); known && !isNil {
+					failed = true
 				}
-				fc, fi := callOf(v)
-				if fc == prod && fi == s.err && !isNil {
-					st.failed = true
+			}
+			owned := false
+			if st.add != nil {
+				for _, ev := range extractOf(st.add, 1) {
+					if known, isNil := env.knownNil(ev); known && isNil {
+						owned = true
+					}
 				}
-				if fc != nil && fc.Call.StaticCallee() == add && isNil && fi == 1 && len(fc.Call.Args) == 3 && isConn(fc.Call.Args[2]) {
-					st.owned = true
+			}
+			if !(st.closed || owned || failed) {
+				bad = "the connection obtained at " + w.instrPos(prod) + " can reach " + where + " neither closed nor handed to an owner"
+			}
+		}
+		cfg := &ipCfg[pst]{w: w}
+		cfg.Inline = func(_ ssa.CallInstruction, h *ssa.Function) bool {
+			return w.IsMod[h] && h != add && fnPkgPath(h) == fnPkgPath(s.fn) && w.singleSiteCI(h) != nil && may(h)
+		}
+		cfg.Step = func(in ssa.Instruction, st pst, env *pathEnv, _ []ssa.CallInstruction) pst {
+			if in == ssa.Instruction(prod) {
+				judge(st, env, "the next loop iteration (acquisition at "+w.instrPos(prod)+" again)")
+				// a new acquisition: what was known of the previous one's results is stale
+				for _, idx := range []int{s.conn, s.err} {
+					for _, ev := range extractOf(prod, idx) {
+						env.forget(ev)
+					}
+				}
+				return pst{active: true}
+			}
+			ci, ok := in.(ssa.CallInstruction)
+			if !ok || !st.active {
+				return st
+			}
+			if _, isGo := in.(*ssa.Go); isGo {
+				return st
+			}
+			switch {
+			case ci.Common().IsInvoke() && ci.Common().Method.Name() == "Close" && isConnIn(ci.Common().Value, env):
+				st.closed = true
+			case ci.Common().StaticCallee() == add && len(ci.Common().Args) == 3 && isConnIn(ci.Common().Args[2], env):
+				if call, isCall := in.(*ssa.Call); isCall {
+					st.add = call
 				}
 			}
 			return st
 		}
-		bad := ""
-		nChecked := 0
-		seen := map[string]bool{}
-		var explore func(b *ssa.BasicBlock, st pst, from int)
-		explore = func(b *ssa.BasicBlock, st pst, from int) {
-			key := fmt.Sprintf("%d|%v|%d", b.Index, st, from)
-			if seen[key] {
-				return
-			}
-			seen[key] = true
-			for i := from; i < len(b.Instrs); i++ {
-				in := b.Instrs[i]
-				if isClose(in) {
-					st.closed = true
-				}
-				if r, ok := in.(*ssa.Return); ok {
-					nChecked++
-					if !(st.closed || st.owned || st.failed) {
-						bad = "the connection obtained at " + w.instrPos(prod) + " can reach the return at " + w.instrPos(r) + " neither closed nor handed to an owner"
-					}
-					return
-				}
-			}
-			for _, sb := range b.Succs {
-				ns := edgeState(st, b, sb)
-				if sb == pb {
-					nChecked++
-					if !(ns.closed || ns.owned || ns.failed) {
-						bad = "the connection obtained at " + w.instrPos(prod) + " can reach the next loop iteration (from " + w.instrPos(b.Instrs[len(b.Instrs)-1]) + ") neither closed nor handed to an owner"
-					}
-					continue
-				}
-				explore(sb, ns, 0)
-			}
+		cfg.Return = func(r *ssa.Return, st pst, env *pathEnv) {
+			judge(st, env, "the return at "+w.instrPos(r))
 		}
-		explore(pb, pst{}, indexIn(prod)+1)
-		if bad == "" {
-			c.OK(rule, fname(s.fn), s.name, w.instrPos(prod), fmt.Sprintf("%d exits: each has the acquisition failed, the connection closed on all paths, or ownership taken by addTCPConnection", nChecked))
+		explorePaths(cfg, s.fn, pst{})
+		if cfg.Exhausted {
+			bad = "undecided: path exploration exceeded its budget"
+		}
+		if bad == "" && nChecked > 0 {
+			c.OK(rule, fname(s.fn), s.name, w.instrPos(prod), fmt.Sprintf("%d path ends: each has the acquisition failed, the connection closed, or ownership taken by addTCPConnection", nChecked))
 		} else {
+			if bad == "" {
+				bad = "no path from the acquisition to an exit was explored"
+			}
 			c.Bad(rule, fname(s.fn), s.name, w.instrPos(prod), "connection leak on an error path: "+bad)
 		}
 	}
@@ -1241,7 +1283,7 @@ func ruleRelayLoopExits(c *Ctx, rule string) {
 
 func ruleCallbackPairing(c *Ctx, rule string) {
 	w := c.W
-	c.Rule(rule, "callback pairing: OnAllocationCreated/OnPermissionCreated/OnChannelCreated are called in the function that inserts the entry, dominated by the insert; OnAllocationDeleted/OnPermissionDeleted/OnChannelDeleted are called in the function that removes the entry and only on a path where an entry was actually found (a lookup of the table yielded a present/non-nil entry), so that a second removal of the same key emits nothing", 6)
+	c.Rule(rule, "callback pairing: OnAllocationCreated/OnPermissionCreated/OnChannelCreated are called in the function that inserts the entry, dominated by the insert; OnAllocationDeleted/OnPermissionDeleted/OnChannelDeleted are called in the function that removes the entry and only on a path where an entry was actually found (a lookup of the table yielded a present/non-nil entry), so that a second removal of the same key emits nothing; and every path of the removing function (helpers inlined) on which a found entry is removed reaches the deleted-event unless the handler is nil", 9)
 	type cb struct {
 		name, fn, recvT, table string
 		created                bool
@@ -1320,6 +1362,140 @@ func ruleCallbackPairing(c *Ctx, rule string) {
 		}
 		if n == 0 {
 			c.Bad(rule, fname(home), k.name, w.pos(home.Pos()), k.name+" is never invoked: anchor gone")
+		}
+		if k.created {
+			continue
+		}
+		// every removal is reported: no path of the removing function (helpers inlined) takes an
+		// entry that was found out of the table and returns without the deleted-event, unless
+		// the handler is nil on that path
+		c.Anchor(rule, k.name+" on removal")
+		createdUnder := map[string]bool{}
+		crName := strings.Replace(k.name, "Deleted", "Created", 1)
+		for _, fn := range w.ModFns {
+			w.eachInstr(fn, func(in ssa.Instruction) {
+				call, ok := in.(*ssa.Call)
+				if !ok || call.Call.StaticCallee() != nil || call.Call.IsInvoke() {
+					return
+				}
+				if _, f, isL := fieldLoad(call.Call.Value); !isL || f.Name() != crName {
+					return
+				}
+				for _, fct := range w.factsAt(in) {
+					if fct.Op == "true" && fct.Truth {
+						if ex, ok := fct.X.(*ssa.Extract); ok && ex.Index == 1 {
+							if ta, isTA := ex.Tuple.(*ssa.TypeAssert); isTA && ta.CommaOk {
+								createdUnder[types.TypeString(ta.AssertedType, nil)] = true
+							}
+						}
+					}
+				}
+			})
+		}
+		isEmit := func(in ssa.Instruction) bool {
+			call, ok := in.(*ssa.Call)
+			if !ok || call.Call.StaticCallee() != nil || call.Call.IsInvoke() {
+				return false
+			}
+			_, f, isL := fieldLoad(call.Call.Value)
+			return isL && f.Name() == k.name
+		}
+		isRemove := func(in ssa.Instruction) bool {
+			if call, ok := in.(*ssa.Call); ok {
+				if b, isB := call.Call.Value.(*ssa.Builtin); isB && b.Name() == "delete" {
+					_, f, isL := fieldLoad(call.Call.Args[0])
+					return isL && f == tbl
+				}
+				return false
+			}
+			if st, ok := in.(*ssa.Store); ok {
+				fa, isFA := st.Addr.(*ssa.FieldAddr)
+				return isFA && fieldOf(fa) == tbl
+			}
+			return false
+		}
+		may := w.mayContain(func(in ssa.Instruction) bool { return isEmit(in) || isRemove(in) })
+		type est struct{ removed, emitted bool }
+		bad := ""
+		nPaths, nRemoved := 0, 0
+		cfg := &ipCfg[est]{w: w}
+		cfg.Inline = func(_ ssa.CallInstruction, h *ssa.Function) bool {
+			return w.IsMod[h] && fnPkgPath(h) == fnPkgPath(home) && may(h)
+		}
+		cfg.Step = func(in ssa.Instruction, st est, _ *pathEnv, _ []ssa.CallInstruction) est {
+			if isRemove(in) {
+				st.removed = true
+			}
+			if isEmit(in) {
+				st.emitted = true
+			}
+			return st
+		}
+		cfg.Return = func(r *ssa.Return, st est, env *pathEnv) {
+			nPaths++
+			if !st.removed || st.emitted {
+				if st.removed {
+					nRemoved++
+				}
+				return
+			}
+			found, handlerNil := false, false
+			for v, isNil := range env.nilK {
+				if isNil {
+					if _, f, isL := fieldLoad(v); isL && f.Name() == k.name {
+						handlerNil = true
+					}
+				} else if derivesFromTable(w, v, tbl) {
+					found = true
+				}
+			}
+			for v, t := range env.truth {
+				if !t {
+					continue
+				}
+				if ex, ok := v.(*ssa.Extract); ok && ex.Index == 1 && derivesFromTable(w, ex.Tuple, tbl) {
+					found = true
+				}
+				if bo, ok := v.(*ssa.BinOp); ok && bo.Op == token.EQL {
+					for _, side := range []ssa.Value{bo.X, bo.Y} {
+						if b, _, ok := fieldLoad(side); ok && derivesFromTable(w, b, tbl) {
+							found = true
+						}
+					}
+				}
+				if call, ok := v.(*ssa.Call); ok {
+					for _, a := range call.Call.Args {
+						if b, _, ok := fieldLoad(a); ok && derivesFromTable(w, b, tbl) {
+							found = true // AddrEqual(element.Peer, addr)
+						}
+					}
+				}
+			}
+			// the event may have no representation for the entry at hand (permission events
+			// carry a UDP address): a failed comma-ok type assertion exempts the path when the
+			// created-event of the pair is emitted under the same assertion
+			exempt := false
+			for v, t := range env.truth {
+				if ex, ok := v.(*ssa.Extract); ok && !t && ex.Index == 1 {
+					if ta, isTA := ex.Tuple.(*ssa.TypeAssert); isTA && ta.CommaOk && createdUnder[types.TypeString(ta.AssertedType, nil)] {
+						exempt = true
+					}
+				}
+			}
+			if found && !handlerNil && !exempt {
+				bad = "an entry found in " + k.table + " is removed but the return at " + w.instrPos(r) + " is reached without " + k.name + ": a created-event is left without its deleted-event (e.g. when a step of the teardown fails)"
+			}
+		}
+		explorePaths(cfg, home, est{})
+		switch {
+		case cfg.Exhausted:
+			c.Bad(rule, fname(home), k.name+" on removal", w.pos(home.Pos()), "undecided: path exploration exceeded its budget")
+		case bad != "":
+			c.Bad(rule, fname(home), k.name+" on removal", w.pos(home.Pos()), bad)
+		case nRemoved == 0:
+			c.Bad(rule, fname(home), k.name+" on removal", w.pos(home.Pos()), "no explored path removes an entry and reports it: anchor gone")
+		default:
+			c.OK(rule, fname(home), k.name+" on removal", w.pos(home.Pos()), fmt.Sprintf("%d paths, %d of them remove an entry and emit the event", nPaths, nRemoved))
 		}
 	}
 }
